@@ -183,6 +183,23 @@ impl Table {
     }
 }
 
+/// What a thread keeps in a thread-local until it exits.
+struct ExitDrop {
+    log: ULog,
+    id: u64,
+    obj: Option<Obj>,
+}
+impl Drop for ExitDrop {
+    fn drop(&mut self) {
+        self.log.log(UK::DropBegin { obj: self.id });
+        drop(self.obj.take());
+        self.log.log(UK::DropEnd { obj: self.id });
+    }
+}
+thread_local! {
+    static EXIT_DROPS: std::cell::RefCell<Vec<ExitDrop>> = std::cell::RefCell::new(Vec::new());
+}
+
 fn do_drop(log: &ULog, table: &Table, op: &Value) {
     let id = ju(op, "obj", 0);
     let mut o = table.take(id);
@@ -221,6 +238,12 @@ fn do_drop(log: &ULog, table: &Table, op: &Value) {
     if jb(op, "forget", false) {
         log.log(UK::Forget { obj: id });
         std::mem::forget(o);
+        return;
+    }
+    if jb(op, "at_exit", false) {
+        // the object is parked in a thread-local of this thread: it is dropped by that thread-local's destructor,
+        // while the thread exits
+        EXIT_DROPS.with(|c| c.borrow_mut().push(ExitDrop { log: log.clone(), id, obj: Some(o) }));
         return;
     }
     log.log(UK::DropBegin { obj: id });
@@ -328,6 +351,12 @@ fn uow_main(plan: &Value, log: ULog) {
         let t = table.clone();
         let l = log.clone();
         hs.push(detsim::thread::spawn_named(&format!("d{}", i + 1), move || {
+            if ops.iter().any(|o| jb(o, "at_exit", false)) {
+                // the thread-local that will hold the object exists before this thread first emits anything (so
+                // whatever thread-locals the library keeps are younger, and are destroyed before it)
+                EXIT_DROPS.with(|c| c.borrow_mut().reserve(1));
+                drop(Work::default().append_on_drop(NullSink));
+            }
             for op in &ops {
                 match js(op, "op", "") {
                     "drop" => do_drop(&l, &t, op),
@@ -1095,6 +1124,18 @@ pub fn gen_uow(rng: &mut Rng, slots: bool) -> Value {
     for i in 0..earlier {
         let at = (mix(hk, i) % (main_ops.len() as u64 + 1)) as usize;
         main_ops.insert(at, json!({"op":"drop_stale"}));
+    }
+    // an eighth of the plans: the last thing one of the dropper threads does is to park its object in a thread-local
+    // instead of dropping it - the drop happens in that thread-local's destructor, while the thread exits
+    let hx = mix(ju(&sched, "seed", 0), 0xe817);
+    if hx % 8 == 0 && !droppers.is_empty() {
+        let d = ((hx / 8) % droppers.len() as u64) as usize;
+        if let Some(last) = droppers[d].last_mut() {
+            let plain = last.as_object().map(|o| o.keys().all(|k| k == "op" || k == "obj")).unwrap_or(false);
+            if plain && js(last, "op", "") == "drop" {
+                last["at_exit"] = json!(true);
+            }
+        }
     }
     json!({
         "sched": sched,
